@@ -20,7 +20,7 @@ Definition dec_run (tok : Z) (ctx : tree) (body : bytes) : pres tree :=
 
 Definition prefixes (body : bytes) : list bytes := map (fun n => firstn n body) (seq 0 (length body)).
 
-Definition run (fn : Z) (i : tree) : tree :=
+Definition pkg_run (fn : Z) (i : tree) : tree :=
   let tok := t_int (t_nth 0 i) in
   match fn with
   | 1 => match find_kind tok kinds_all with
@@ -45,7 +45,7 @@ Definition run (fn : Z) (i : tree) : tree :=
   | _ => tbad
   end.
 
-Definition spec (fn : Z) (i o : tree) : bool :=
+Definition pkg_spec (fn : Z) (i o : tree) : bool :=
   match fn with
   | 1 => if (match t_nth 2 i with TI 0 => true | _ => false end) then true else   (* outside the domain of the property: nothing claimed *)
          match o with
